@@ -2,13 +2,13 @@ SPECIFICATION Spec
 CONSTANTS
   Actors = {"p", "c", "g"}
   NoA = "none"
-  InitSup <- SupPC
-  InitSt <- StRun
+  InitSup <- SupChain
+  InitSt <- StDrainG
   InitMayExit = {"p", "c"}
-  LinkOps <- Link3
-  UnlinkOps <- Unlink3
-  KillOps = {"p", "c"}
-  DrainOps = {"c", "g"}
+  LinkOps <- LinkChain
+  UnlinkOps <- UnlinkChain
+  KillOps = {"p"}
+  DrainOps = {"c"}
   MaxEnv = 2
   AllowDev = FALSE
 INVARIANTS
